@@ -156,6 +156,16 @@ def oracle(o, ep):
             bad.append(("limit_code", "limit violation (%s) exposes codes %s along the chain, not %s" % (cls, codes, DEDICATED[cls])))
     if not ep["same3"]:
         bad.append(("nondeterministic", "code / message / location differ between three calls on the same input"))
+    if ep["name"].startswith("Parser(long-lived)"):
+        # the parser that has seen every kind of failure before must report what a new parser reports
+        sib = [e for e in o["eps"] if e["name"] == "Parser.ParseFromModelTokens"]
+        if not sib or sib[0]["obs"].get("nil"):
+            bad.append(("history_dependent", "a long-lived parser rejects (%s) an input that a new parser accepts" % ob.get("as_code")))
+        else:
+            so = sib[0]["obs"]
+            if (ob.get("as_code"), ob.get("as_line"), ob.get("as_col")) != (so.get("as_code"), so.get("as_line"), so.get("as_col")):
+                bad.append(("history_dependent", "a long-lived parser reports %s at %s:%s, a new parser %s at %s:%s for the same input" % (
+                    ob.get("as_code"), ob.get("as_line"), ob.get("as_col"), so.get("as_code"), so.get("as_line"), so.get("as_col"))))
     if ob["headers"] > ob["structured"]:
         bad.append(("cause_unreachable", "the text embeds %d structured errors, the Unwrap chain has %d: a cause was folded into a message" % (ob["headers"], ob["structured"])))
     if ob["ctx_text"] and not is_ctx:
